@@ -414,17 +414,17 @@ def empty_group_skips(ctx, rep, rule: str) -> None:
     for n in cfg.nodes:
         if n.kind == "test":
             t = A.emptiness_normal(n.ast.test)  # `len(xs) == 0` is `not xs` for the tuple the slot holds
-            if isinstance(t, ast.UnaryOp) and isinstance(t.op, ast.Not):
-                nm, key = A.subscript_key(repo, m, t.operand)
-                if key == "masked_blocked_grads":
-                    tests.append(n)
+            neg = isinstance(t, ast.UnaryOp) and isinstance(t.op, ast.Not)
+            nm, key = A.subscript_key(repo, m, t.operand if neg else t) if isinstance(t.operand if neg else t, ast.Subscript) else (None, None)
+            if key == "masked_blocked_grads":
+                tests.append((n, "T" if neg else "F"))  # the edge taken when the list is empty: `if not xs: continue` / `if xs: <rest>`
     rep.floor(rule, "empty-gradient test in step()", len(tests), 1)
     inc_nodes = {cfg.node_of(w.node) for w in pts.writes if w.func == step.qual and any("step" in kinds.get(t, ()) for t in w.dst)}
     call_nodes = {cfg.node_of(c) for c in A.calls(step.node) if any(q.replace(":", ".").endswith("._per_group_step_impl") for q in pts.callees(step.qual, c))}
-    for tnode in tests:
-        # on the True edge (list empty) we must get back to the loop head (or exit) without touching the counter or the group step
+    for tnode, empty_edge in tests:
+        # on the edge taken for an empty list we must get back to the loop head (or exit) without touching the counter or the group step
         seen = set()
-        stack = [s for s, lab in tnode.succ if lab == "T"]
+        stack = [s for s, lab in tnode.succ if lab == empty_edge]
         touched = False
         while stack:
             x = stack.pop()
